@@ -202,6 +202,10 @@ type cfCase struct {
 	ops    []cfOp
 	reg    []int // reg[i] = number of ops applied before handler i registers
 	noWait bool  // list-only comparison: nothing happens after the registration
+	// stop0: when > 0, handler 0 is stopped (FactoryStore.Stop and its own context cancelled, as a
+	// resourceInformer does) after this many operations; the other handler of the shared informer
+	// must go on receiving
+	stop0 int
 }
 
 func (c cfCase) key() string {
@@ -209,7 +213,11 @@ func (c cfCase) key() string {
 	for _, o := range c.ops {
 		names = append(names, o.String())
 	}
-	return fmt.Sprintf("ns=%q fs=%q ls=%q|reg=%v|%s", c.index.Namespace, c.index.FieldSelector, c.index.LabelSelector, c.reg, strings.Join(names, ";"))
+	k := fmt.Sprintf("ns=%q fs=%q ls=%q|reg=%v|%s", c.index.Namespace, c.index.FieldSelector, c.index.LabelSelector, c.reg, strings.Join(names, ";"))
+	if c.stop0 > 0 {
+		k += fmt.Sprintf("|stop-h0-after=%d", c.stop0)
+	}
+	return k
 }
 
 var cfTimeout = fmt.Errorf("barrier timeout")
@@ -245,12 +253,13 @@ func cfRunReal(c cfCase) ([]string, error) {
 			panic(err)
 		}
 	}
+	stopped := map[int]bool{}
 	waitAll := func(ver int, limit time.Duration) bool {
 		deadline := time.Now().Add(limit)
 		for {
 			ok := true
-			for _, r := range recs {
-				if r.seen() < ver {
+			for i, r := range recs {
+				if !stopped[i] && r.seen() < ver {
 					ok = false
 				}
 			}
@@ -282,15 +291,24 @@ func cfRunReal(c cfCase) ([]string, error) {
 			fs.Stop(fmt.Sprintf("h%d", i), c.index)
 		}
 	}()
+	var cancels []context.CancelFunc
 	register := func() error {
 		r := &cfRecorder{}
 		id := fmt.Sprintf("h%d", len(recs))
-		if err := fs.Start(ctx, id, w.dyn, c.index, r.handler(), weh); err != nil {
+		hctx, hcancel := context.WithCancel(ctx) // every resourceInformer starts its handler with a context of its own
+		if err := fs.Start(hctx, id, w.dyn, c.index, r.handler(), weh); err != nil {
+			hcancel()
 			return err
 		}
+		cancels = append(cancels, hcancel)
 		recs = append(recs, r)
 		return nil
 	}
+	defer func() {
+		for _, cf := range cancels {
+			cf()
+		}
+	}()
 	step := func() error {
 		if len(recs) > 0 {
 			if err := barrier(); err != nil {
@@ -310,6 +328,20 @@ func cfRunReal(c cfCase) ([]string, error) {
 				}
 				if err := step(); err != nil {
 					return nil, err
+				}
+			}
+		}
+		if c.stop0 > 0 && i == c.stop0 && len(recs) >= 2 && !stopped[0] {
+			fs.Stop("h0", c.index)
+			cancels[0]()
+			stopped[0] = true
+			// the informer is shared: it must keep running for the handler that is still registered
+			if f, ok := fs.data[c.index]; ok {
+				inf := f.shared.ForResource(c.index.GVR).Informer()
+				for dl := time.Now().Add(20 * time.Millisecond); time.Now().Before(dl); time.Sleep(200 * time.Microsecond) {
+					if inf.IsStopped() {
+						return nil, fmt.Errorf("the shared informer stopped when the first of its two handlers was stopped; the second handler gets nothing any more")
+					}
 				}
 			}
 		}
@@ -360,6 +392,9 @@ func cfRunHub(c cfCase) ([]string, string) {
 					recs = append(recs, r)
 					step()
 				}
+			}
+			if c.stop0 > 0 && i == c.stop0 && len(recs) >= 2 {
+				fs.Stop("h0", c.index)
 			}
 			if i < len(c.ops) {
 				w.apply(c.ops[i])
@@ -507,6 +542,10 @@ func TestVerifHubConformance(t *testing.T) {
 				run(cfCase{index: idx, ops: ops, reg: []int{r1}})
 				for r2 := r1; r2 <= len(ops); r2++ {
 					run(cfCase{index: idx, ops: ops, reg: []int{r1, r2}})
+					// the first handler goes away while the second stays
+					for st := r2; st < len(ops) && st > 0; st++ {
+						run(cfCase{index: idx, ops: ops, reg: []int{r1, r2}, stop0: st})
+					}
 				}
 			}
 		}
